@@ -1,7 +1,7 @@
 """Obligations for C05."""
 from oblib import ob
 
-BOUNDS = {'quick': 'Inside: a Decoder with buffer capacity 2, 3, 4, 8 (and the default 64) over a reader whose first 2-9 Read sizes are chosen by the solver (0..min(len(p),rest), never two empty reads in a row, optional EOF together with the last bytes; later reads deliver one byte), inputs = 2-3 fully symbolic bytes and templates up to 18 bytes with symbolic holes ([1,"?"], {"?":[?]} 3, 1{"a?":{, 1{"ab":{, 1 {"a":{"?":tru), 2-3 calls each chosen by the solver from ReadToken/ReadValue/SkipValue/PeekKind, compared call by call with a buffer-mode decoder over the whole input; one transient read error at a solver-chosen Read (ReadToken/ReadValue only); the resumption contract of ConsumeStringResumable / ConsumeNumberResumable for every cut point of templates incl. surrogate pairs. Outside: longer inputs and call sequences, more than one fault, typed UnmarshalRead/UnmarshalDecode (C03 route covers UnmarshalRead into any).', 'thorough': 'Same families (the thorough tier currently equals the quick tier plus more resumption templates).'}
+BOUNDS = {'quick': 'Inside: [typed] json.UnmarshalRead equals json.Unmarshal (success, value) for a first value (string literal, array, digits) of exactly 63/64/65/128 bytes (thorough: 62-66, 127-129, 256) followed by 1-2 symbolic bytes, over a reader that fills the buffer or delivers 1 (thorough: also 7) bytes per Read, with and without EOF together with the last bytes; the reader reports repeated Read calls with an empty buffer (non-termination) as a violation. [token level] a Decoder with buffer capacity 2, 3, 4, 8 (and the default 64) over a reader whose first 2-9 Read sizes are chosen by the solver (0..min(len(p),rest), never two empty reads in a row, optional EOF together with the last bytes; later reads deliver one byte), inputs = 2-3 fully symbolic bytes and templates up to 18 bytes with symbolic holes ([1,"?"], {"?":[?]} 3, 1{"a?":{, 1{"ab":{, 1 {"a":{"?":tru), 2-3 calls each chosen by the solver from ReadToken/ReadValue/SkipValue/PeekKind, compared call by call with a buffer-mode decoder over the whole input; one transient read error at a solver-chosen Read (ReadToken/ReadValue only); the resumption contract of ConsumeStringResumable / ConsumeNumberResumable for every cut point of templates incl. surrogate pairs. Outside: longer inputs and call sequences, more than one fault, typed UnmarshalRead/UnmarshalDecode (C03 route covers UnmarshalRead into any).', 'thorough': 'Same families (the thorough tier currently equals the quick tier plus more resumption templates).'}
 ASSUMPTIONS = []
 
 
@@ -21,4 +21,13 @@ def obligations(tier):
             L.append(ob("resumeS/t%d/validate=%d" % (i, v), "internal/jsonwire", "VerifC05ResumeString", [t, v], covers=["resumed"], max_seconds=600))
     for i, t in enumerate(['????', '-?.?e?', '0???', '1e+??'] if q else ['????', '?????', '-?.?e?', '0???', '1e+??', '-0.?e-?']):
         L.append(ob("resumeN/t%d" % i, "internal/jsonwire", "VerifC05ResumeNumber", [t], covers=["resumed"], max_seconds=600))
+    # typed entry point: UnmarshalRead == Unmarshal around the buffer boundaries; the reader polices empty-buffer polling
+    for kind in ((0, 1) if q else (0, 1, 2)):
+        for n in ((63, 64, 65, 128) if q else (62, 63, 64, 65, 66, 127, 128, 129, 256)):
+            for tail in ("?", " ?") if q else ("?", " ?", "??"):
+                for chunk in (0, 1) if q else (0, 1, 7):
+                    for eof in (False, True):
+                        if q and eof and n != 64:
+                            continue
+                        L.append(ob("unmarshalread/kind=%d/n=%d/tail=%s/chunk=%d/eof=%d" % (kind, n, tail.replace(" ", "_"), chunk, eof), ".", "VerifC05UnmarshalRead", [kind, n, tail, chunk, eof]))
     return L
